@@ -790,6 +790,11 @@ func C06(run *report.Run) {
 		}
 	}
 	acc.flush(run)
+	// persisted versions of a larger universe (heights up to 5, one side regularly running out while the other
+	// still holds whole subtrees): prefixes, suffixes, alternating keys; all ordered pairs
+	tallVersionPairs(run, "C06", world.UintCfg(2, urange(1, 40), 1, ref.FormatBinary, "none"), func(cfg *world.Config, o, n *version) []explore.Finding {
+		return checkEntryDiff(cfg, o.t, n.t, o.c, n.c, "tall|"+heightClass(o, n), false)
+	})
 	swallowedFaultPass(run, "C06", "DiffIter", "DiffCursor")
 	run.Transitions += acc.pairs
 	run.Validated = run.Transitions
@@ -1007,6 +1012,11 @@ func c07CallHistories(run *report.Run) {
 
 func C07(run *report.Run) {
 	runVersionPairs(run, "C07", versionConfigs(run.Thorough()), checkNodeDiff)
+	tallVersionPairs(run, "C07", world.UintCfg(2, urange(1, 40), 1, ref.FormatBinary, "none"), checkNodeDiff)
+	if run.Thorough() {
+		tallVersionPairs(run, "C07", world.UintCfg(3, urange(1, 90), 1, ref.FormatMarshaler, "none"), checkNodeDiff)
+		tallVersionPairs(run, "C07", world.UintCfg(2, urange(1, 70), 1, ref.FormatBinary, "none"), checkNodeDiff)
+	}
 	c07CallHistories(run)
 	swallowedFaultPass(run, "C07", "DiffLinks")
 	run.AddSample("every ordered pair of persisted versions of the universe, e.g. old={1=a,2=a,4=a} new={2=b,3=a}: DiffLinks events vs reach sets from the reference walker, then LoadMast(new) from a store holding reach(old)+added")
@@ -1356,4 +1366,117 @@ func wideC15With(run *report.Run, acc *pairAcc, k int, bf uint, leaf []uint8, se
 	run.Transitions += pairs
 	run.Evals += pairs
 	run.Distinct += pairs
+}
+
+// buildSubsetVersion builds and persists the version holding exactly the given keys (first value), inserted
+// in an order rotated by rot.
+func buildSubsetVersion(cfg *world.Config, keys []int, rot int) (*version, error) {
+	w, err := world.New(cfg)
+	if err != nil {
+		return nil, err
+	}
+	for s := range keys {
+		kk := keys[(s+rot)%len(keys)]
+		if r := w.Apply(world.Op{Kind: world.OpIns, K: kk, V: 0}); r.Err != nil || r.Panic != nil {
+			return nil, fmt.Errorf("build version: %v", r)
+		}
+	}
+	r := w.Apply(world.Op{Kind: world.OpReload})
+	if r.Err != nil || r.Panic != nil {
+		return nil, fmt.Errorf("persist version: %v", r)
+	}
+	v := &version{w: w, t: w.Trees[0], root: r.Root, link: linkOf(r.Root), c: w.ReadContents(w.Trees[0])}
+	w.Store.StopLog()
+	v.reach, err = codecFor(cfg).Reach(cfg.KS, storeGet(w.Store), v.link)
+	return v, err
+}
+
+// tallVersionPairs: versions of a larger universe than the all-subsets enumeration can afford - every
+// prefix, every suffix, the keys at even and at odd positions, and the full set minus one key for a few
+// keys - and all their ordered pairs. Heights differ by up to the full height of the universe; one side
+// regularly runs out (all its keys smaller or larger) while the other still has whole subtrees to report.
+func tallVersionPairs(run *report.Run, check string, cfg *world.Config, judge func(cfg *world.Config, o, n *version) []explore.Finding) {
+	nk := len(cfg.Keys)
+	var subsets [][]int
+	rng := func(a, b, step int) []int {
+		var out []int
+		for i := a; i < b; i += step {
+			out = append(out, i)
+		}
+		return out
+	}
+	for k := 0; k <= nk; k++ {
+		subsets = append(subsets, rng(0, k, 1))
+		if k > 0 && k < nk {
+			subsets = append(subsets, rng(k, nk, 1))
+		}
+	}
+	subsets = append(subsets, rng(0, nk, 2), rng(1, nk, 2))
+	for _, drop := range []int{0, nk / 3, nk / 2, nk - 1} {
+		var s []int
+		for i := 0; i < nk; i++ {
+			if i != drop {
+				s = append(s, i)
+			}
+		}
+		subsets = append(subsets, s)
+	}
+	vs := make([]*version, len(subsets))
+	var firstErr atomic.Value
+	parallelFor(len(subsets), func(i int) {
+		v, err := buildSubsetVersion(cfg, subsets[i], i)
+		if err != nil {
+			firstErr.Store(err)
+			return
+		}
+		vs[i] = v
+	})
+	if e := firstErr.Load(); e != nil {
+		run.HarnessError("%s: %v", cfg.Name, e)
+		return
+	}
+	acc := &pairAcc{}
+	n := len(vs)
+	maxH := uint8(0)
+	for _, v := range vs {
+		if v.root.Height > maxH {
+			maxH = v.root.Height
+		}
+	}
+	parallelFor(n, func(i int) {
+		for j := 0; j < n; j++ {
+			atomic.AddInt64(&acc.pairs, 1)
+			if vs[i].link != vs[j].link {
+				atomic.AddInt64(&acc.nontr, 1)
+			}
+			acc.add(cfg, check, judge(cfg, vs[i], vs[j]), []string{fmt.Sprintf("old version: keys #%v of %s (height %d)", compactInts(subsets[i]), cfg.Name, vs[i].root.Height), fmt.Sprintf("new version: keys #%v (height %d)", compactInts(subsets[j]), vs[j].root.Height)})
+		}
+	})
+	acc.flush(run)
+	run.States += int64(n)
+	run.Transitions += acc.pairs
+	run.Validated = run.Transitions
+	run.Evals += acc.pairs
+	run.Distinct += acc.nontr
+	run.Parts = append(run.Parts, map[string]interface{}{"part": "larger universe: prefixes, suffixes, alternating keys, one key dropped; all ordered pairs", "config": cfg.Name, "versions": n, "ordered_pairs": n * n, "greatest_height": maxH})
+}
+
+func compactInts(xs []int) string {
+	if len(xs) == 0 {
+		return "{}"
+	}
+	step := 1
+	if len(xs) > 1 {
+		step = xs[1] - xs[0]
+	}
+	regular := true
+	for i := 1; i < len(xs); i++ {
+		if xs[i]-xs[i-1] != step {
+			regular = false
+		}
+	}
+	if regular && len(xs) > 2 {
+		return fmt.Sprintf("{%d..%d step %d}", xs[0], xs[len(xs)-1], step)
+	}
+	return fmt.Sprint(xs)
 }
